@@ -41,8 +41,23 @@ def cases(tier, seed):
             out.append(dict(cfg=dict(env="atsp", n=n, tmat=False), B=8, s=rnd.randrange(10**6)))
             for pt in ("dist", "unif", "const"):
                 out.append(dict(cfg=dict(env="op", n=n, prize_type=pt), gp=dict(prize_type=pt), B=16, s=rnd.randrange(10**6)))
-            for dist in ("normal", "center"):
-                pass
+    # sampler parameterisations: non-default coordinate bounds, the named point distributions ('center', 'corner', a constant),
+    # separate depot distributions, ready-made sampler objects - coordinates must stay inside the generator's [min_loc, max_loc]
+    boxes = [(0.25, 0.75), (0.5, 1.0), (0.0, 0.4), (0.6, 0.9)]
+    for env_ in ("tsp", "cvrp", "sdvrp", "op", "pctsp", "spctsp", "pdp", "mtsp", "svrp"):
+        for r in range(reps):
+            lo, hi = rnd.choice(boxes)
+            variants = [dict(min_loc=lo, max_loc=hi), dict(min_loc=lo, max_loc=hi, loc_distribution="uniform"), dict(min_loc=lo, max_loc=hi, loc_distribution="center"),
+                        dict(min_loc=lo, max_loc=hi, loc_distribution="corner"), dict(min_loc=lo, max_loc=hi, loc_distribution=round((lo + hi) / 2, 3)),
+                        dict(loc_sampler=[0.1, 0.3])]
+            if env_ not in ("tsp", "mtsp"):
+                variants += [dict(min_loc=lo, max_loc=hi, depot_distribution="center"), dict(min_loc=lo, max_loc=hi, depot_distribution="corner"),
+                             dict(min_loc=lo, max_loc=hi, depot_distribution="uniform"), dict(depot_sampler=[0.45, 0.55])]
+            for gp in variants:
+                if env_ == "op" and not isinstance(gp.get("loc_distribution", "uniform"), str) or (env_ == "op" and gp.get("loc_distribution") in ("center", "corner")):
+                    gp = dict(gp, prize_type="const")  # distance-based prizes are undefined (0/0) when every node sits on the depot
+                n_ = rnd.choice([6, 10, 20])
+                out.append(dict(cfg=dict(env=env_, n=n_ + (n_ % 2 if env_ == "pdp" else 0), sampler="|".join(f"{k}={v}" for k, v in sorted(gp.items()) if k not in ("min_loc", "max_loc"))), gp=gp, B=16, s=rnd.randrange(10**6)))
     for cfg in envzoo.sched_configs(tier) + [c for c in envzoo.select_configs(tier) if c["env"] in ("flp", "mcp", "dpp", "mdpp")]:
         for r in range(reps * 2):
             out.append(dict(cfg=cfg, B=16, s=rnd.randrange(10**6)))
